@@ -525,6 +525,77 @@ func init() {
 				}
 			}
 			_ = titled
+			// the other terminal operations exclude the same way
+			if ok {
+				sel2 := func() *tabula.Extractor {
+					e := tabula.Open(path)
+					if len(sel) > 0 {
+						e = e.Pages(sel...)
+					}
+					return e
+				}
+				outs := map[string][2]string{}
+				pm, _, e1 := sel2().ToMarkdown()
+				fm, _, e2 := sel2().ExcludeHeadersAndFooters().ToMarkdown()
+				if e1 != nil || e2 != nil {
+					ok, why = false, fmt.Sprintf("ToMarkdown: %v %v", e1, e2)
+				}
+				outs["ToMarkdown"] = [2]string{pm, fm}
+				docText := func(e *tabula.Extractor) (string, error) {
+					d, _, err := e.Document()
+					if err != nil || d == nil {
+						return "", err
+					}
+					var b strings.Builder
+					for _, pg := range d.Pages {
+						b.WriteString(pg.ExtractText() + "\n")
+					}
+					return b.String(), nil
+				}
+				pd, e3 := docText(sel2())
+				fd, e4 := docText(sel2().ExcludeHeadersAndFooters())
+				if e3 != nil || e4 != nil {
+					ok, why = false, fmt.Sprintf("Document: %v %v", e3, e4)
+				}
+				outs["Document"] = [2]string{pd, fd}
+				chunkText := func(e *tabula.Extractor) (string, error) {
+					cc, _, err := e.Chunks()
+					if err != nil || cc == nil {
+						return "", err
+					}
+					var b strings.Builder
+					for _, c := range cc.Chunks {
+						b.WriteString(c.Text + "\n")
+					}
+					return b.String(), nil
+				}
+				pc, e5 := chunkText(sel2())
+				fc, e6 := chunkText(sel2().ExcludeHeadersAndFooters())
+				if e5 != nil || e6 != nil {
+					ok, why = false, fmt.Sprintf("Chunks: %v %v", e5, e6)
+				}
+				outs["Chunks"] = [2]string{pc, fc}
+				for name, pf := range outs {
+					if !ok {
+						break
+					}
+					if strings.Count(pf[1], "Body line") != strings.Count(pf[0], "Body line") {
+						ok, why = false, name+": a body line is missing after exclusion"
+					}
+					copies := 0
+					for _, p := range selPages {
+						if bodyCopies[p-1] {
+							copies++
+						}
+					}
+					if strings.Count(pf[1], "Running Title") < copies {
+						ok, why = false, name+": a body line with the words of the running title is missing"
+					}
+					if !partial && strings.Contains(pf[1], "Running Title of the Book") && len(selPages) >= 2 {
+						ok, why = false, name+": the running title is still there"
+					}
+				}
+			}
 			r.Check(ok, "api-exclusion", fmt.Sprintf("ExcludeHeadersAndFooters().Text() on pages %v (number style %q, title on %v): %s; err %v %v", sel, numStyle, hasTitle, why, e1, e2), Bs(path))
 			os.Remove(path)
 		}
